@@ -22,7 +22,7 @@ PROP = 'C01'
 def arg_py(a):
     k = a['k']
     return {'int': lambda: a['i'], 'str': lambda: a['s'], 'none': lambda: None,
-            'bool': lambda: a['b']}[k]()
+            'bool': lambda: a['b'], 'sent': lambda: codec.SENT[a['s']]}[k]()
 
 
 def spellings(steps):
